@@ -194,12 +194,24 @@ def run(P, rep, tier):
                   'the membership test against table[P]', reference=len(SPEC_IDS) * len(ids))
     r3 = rep.rule('C10-R3', 'after yielding X the next header is tested against table[X]', reference=9)
     bad_acc, bad_dom = [], []
+    rejected = {}
+    for res_ in results.values():
+        if res_.get('history_rejected'):
+            hist_, n_ = res_['history_rejected']
+            rejected.setdefault(tuple(hist_[:n_ + 1]), n_)
+    for hist_, n_ in sorted(rejected.items()):
+        rep.violation(r2, 'legal-history-rejected:%s' % '>'.join(hist_), R.entry.loc(),
+                      'the sequence of headers %s is legal by VALID_SECTION_STATES, but no path through the reader yields a record for '
+                      '%r after %s: a legal file is rejected' % (list(hist_), hist_[-1], list(hist_[:-1])),
+                      path=[R.entry.short, R.header_fn.short], witness=list(hist_))
     for Pid in SPEC_IDS:
         row = frozenset(table.get(Pid, ()))
         for X in ids:
             r = results[('R2', Pid, X)]
             legal = X in row
             inst = '%s -> %s' % (Pid, X)
+            if r.get('history_rejected'):
+                continue
             if r['accepted'] != legal:
                 bad_acc.append((inst, r['accepted']))
             elif r['undominated']:
@@ -218,7 +230,7 @@ def run(P, rep, tier):
                       'a record is yielded on a path that does not test its id against the allowed set of the '
                       'previous section (%d pairs, e.g. %s)' % (len(bad_dom), bad_dom[:5]),
                       path=[R.entry.short, R.header_fn.short], witness=bad_dom)
-    upstream_bad = r1_bad or bad_acc or bad_dom
+    upstream_bad = r1_bad or bad_acc or bad_dom or rejected
     for X in SPEC_IDS:
         r = results[('R3', None, X)]
         if r.get('skipped'):
@@ -332,6 +344,22 @@ def _history(table, ids):
     return [Script(s_, options='unknown' if (s_ in CONTENT_IDS or s_ == 'diffx') else 'none') for s_ in ids]
 
 
+def _history_rejected(H, pre):
+    """Why the spec-legal history ``pre`` cannot be frozen: (ids up to the first header for which no path yields a
+    record, number of records yielded before it), or None when the history is passable (an engine problem then)."""
+    for k in range(len(pre) - 1, -1, -1):
+        paths, exceeded = H.paths(list(pre[:k + 1]), max_paths=20000, det_prefix=k)
+        if exceeded:
+            return None
+        if not paths:
+            continue          # the history before header k cannot be frozen either: look further back
+        best = max(sum(1 for e in getattr(p, 'full_events', p.events) if e.kind == 'yield') for p in paths)
+        if best >= k + 1:
+            return None
+        return ([s_.sid for s_ in pre[:k + 1]], k)
+    return None
+
+
 def _task_inner(t):
     kind, Pid, X = t
     P, R, table, var, loop = _CTX
@@ -360,6 +388,9 @@ def _task_inner(t):
         nh = len(pre)
         paths, exceeded = H.paths(pre + [Script(X, options='unknown' if legal else 'none')], det_prefix=nh)
         if not paths:
+            hr = _history_rejected(H, pre)
+            if hr:
+                return {'paths': 0, 'exceeded': False, 'history_rejected': hr, 'shared_mut': []}
             raise AnalysisError('no feasible path through the history %s' % [s_.sid for s_ in pre])
         accepted = False
         undominated = False
@@ -388,6 +419,10 @@ def _task_inner(t):
         pre = _history(table, history_to(table, X))
         nh = len(pre)
         paths, exceeded = H.paths(pre + [Script(X, options='unknown'), Script(X2, options='none')], det_prefix=nh)
+        if not paths:
+            hr = _history_rejected(H, pre)
+            if hr:
+                return {'paths': 0, 'exceeded': False, 'history_rejected': hr, 'shared_mut': [], 'seen': [], 'reached': 0}
         seen = set()
         reached = 0
         for path in paths:
